@@ -165,7 +165,7 @@ def _names(call):
 def plan(prop, tier):
     if tier == "thorough":
         return {"run_timeout": 1200, "mem_cap_gb": 0, "runs": 14000, "chunk": 100, "wall_cap": 1800, "selftest": 24, "shrink_wall": 900, "max_shrunk": 10, "ddmin_budget": 80}
-    return {"run_timeout": 1200, "mem_cap_gb": 0, "runs": 1200, "chunk": 20, "wall_cap": 300, "selftest": 6, "shrink_wall": 300, "max_shrunk": 8, "ddmin_budget": 60}
+    return {"run_timeout": 1200, "mem_cap_gb": 0, "runs": 1000, "chunk": 20, "wall_cap": 300, "selftest": 6, "shrink_wall": 300, "max_shrunk": 8, "ddmin_budget": 60}
 
 
 def call_sig(call):
